@@ -794,6 +794,14 @@ def corpus():
         ["Observe", 0, 0, kiv], ["TouchItems", 0, 3, [1, 2]]] + probes_for(3) + [
         ["Cop", 3, 6, "pop", [0], [0, 1, []]]] + probes_for(3) + [
         ["Observe", 1, 0, parse_named("m.items.value")], ["TouchItems", 0, 4, [["a", 2]]]] + probes_for(3)))
+    # error path (theorem failing_maintainer_exact_effect): two handlers observe through the same trait; the first
+    # one's maintainer cannot hook the new value (ValueError), so the second one's maintainer never runs: the old
+    # value keeps calling the second handler and the new value does not
+    cs.append(dict(npool=4, shape="strict", name="failing-maintainer", ops=[
+        ["AddTrait", 1, 12], ["SetRef", 0, 1, 1],
+        ["Observe", 0, 0, [1, True, False, [[12, True, False, []]]]],
+        ["Observe", 1, 0, [1, True, False, [[0, True, False, []]]]]] + probes_for(3) + [
+        ["SetRef", 0, 1, 2]] + probes_for(3)))
     # finding: del o.kids notifies twice, the new default list is hooked twice; once replaced it keeps calling
     ki = parse_named("kids.items")
     cs.append(dict(npool=3, shape="acyclic-del", name="del-container", ops=[
